@@ -195,12 +195,12 @@ def run(rec, tier, seed):
         dict(pair='swap-element', opts=dict(replicate=[1, 1, 2], charges=True)),
     ]
     k = 0
-    for b in base:
+    for bi, b in enumerate(base):
         for infmt in ('cif', 'lmpdat', 'cml'):
             for outfmt in b.get('outfmts', ['lmpdat', 'cif']):
                 k += 1
-                if tier == 'quick' and k % 3 != 0 and infmt != 'cif':
-                    continue
+                if tier == 'quick' and (k + bi) % 3 != 0 and infmt != 'cif':
+                    continue     # rotates through the (input, output) format combinations from one option set to the next
                 spec = dict(pair=b['pair'], opts=b['opts'], infmt=infmt, outfmt=outfmt, seed=seed * 100 + k, rng=k, noise=b.get('noise', 0.0), copies=b.get('copies', 3))
                 msg = check(spec)
                 rec.case(repr(sorted(spec.items(), key=str)), sample=spec if len(rec.samples) < 2 else None)
